@@ -79,6 +79,10 @@ def default_run_one(mod, case, tally):
                 # ... which is only what happened if the *innermost* frame - where the alarm found the thread - is the server's code or
                 # a protocol library's.  Found inside the harness (a scripted application producing its body, the virtual loop) or the
                 # standard library, the case was merely slow on a loaded machine: a wall-clock watchdog is never a verdict.
+                # (frames of the event loop machinery itself - asyncio, trio, the virtual loop - say nothing about who keeps it busy: the
+                #  innermost frame that is neither is looked at)
+                MACHINERY = ("/asyncio/", "/trio/", "/outcome/", "/selectors.py", "/threading.py", "/concurrent/", "/hv/world/vloop", "/contextlib.py")
+                frames = [f for f in frames if not any(m_ in f[0] for m_ in MACHINERY) and f[2] != "_alarm"]  # (_alarm: the watchdog's own handler)
                 inner = frames[-1] if frames else None
                 server_side = inner is not None and ("/hypercorn/" in inner[0] or any("/site-packages/%s/" % lib in inner[0] for lib in ("h11", "h2", "hpack", "wsproto", "priority", "hyperframe")))
                 if not server_side:
